@@ -15,6 +15,9 @@ class _Pos:
         self.x, self.y, self.z = x, y, z
 
 
+RAISED = -1.0e300      # stands for "the accessor raised" among the values read
+
+
 def _desc(S, C, kind, rng):
     sp = ({"type": "grid", "w": C, "h": 1, "d": 1, "per": [False] * 3, "env": [0] * C, "vol": {"bare": 1.0}, "units": ["µm", "s", "molecule"]}
           if kind == "grid" else
@@ -75,9 +78,13 @@ def observe(c):
         for s in range(S):
             for cell in range(C):
                 k += 1
-                r = tr.get_trajectory_point(sref(s, k), n, cref(cell, k))
-                chk(r.units)
-                o["points"].append(float(r.value))
+                try:
+                    r = tr.get_trajectory_point(sref(s, k), n, cref(cell, k))
+                    chk(r.units)
+                    o["points"].append(float(r.value))
+                except Exception as e:           # a valid reference that the accessor refuses: a value nothing equals
+                    o["points"].append(RAISED)
+                    o.setdefault("raised", []).append("get_trajectory_point: %s: %s" % (type(e).__name__, str(e)[:80]))
     for n in range(N):
         for s in range(S):
             k += 1
@@ -90,9 +97,13 @@ def observe(c):
     for s in range(S):
         for cell in range(C):
             k += 1
-            r = tr.get_trajectory(sref(s, k), cref(cell, k))
-            chk(r.units)
-            o["trajs"].append([float(v) for v in r.value])
+            try:
+                r = tr.get_trajectory(sref(s, k), cref(cell, k))
+                chk(r.units)
+                o["trajs"].append([float(v) for v in r.value])
+            except Exception as e:
+                o["trajs"].append([RAISED] * N)
+                o.setdefault("raised", []).append("get_trajectory: %s: %s" % (type(e).__name__, str(e)[:80]))
         r = tr.get_trajectory(sref(s, k), merge=True)
         chk(r.units)
         o["merged"].append([float(v) for v in r.value])
@@ -138,6 +149,8 @@ def oracle(it):
     name = "point / state / trajectory accessors and direct indexing at n*S*C + s*C + c agree; merged = sum over cells; look-ups return closest (ties earlier) / last not after / first not before, None when no such sample"
     N, S, C = c["N"], c["S"], c["C"]
     d = ref_data(c, o)
+    if o.get("raised"):
+        return False, name + " [%s]" % o["raised"][0]
     if not o["units_ok"]:
         return False, name + " [units]"
     k = 0
